@@ -26,9 +26,13 @@ import (
 //   C04-shapes   value shapes inside a kind (multi-byte / long / invalid strings,   exhaustive
 //                boundary ints, NaN, every sequence length, NaN-keyed maps) x helpers,
 //                option hashes, index, operators, iteration, calls (oracle_c04_shapes.go)
+//   C04-iface    values implementing the interfaces the engine / helpers dispatch on      exhaustive
+//                (Stringer, HTMLer, Interface(), Iterator, Pathable, Paramable, error, Marshaler):
+//                value, pointer, typed nil pointer, carriers x helpers, operators, output,
+//                iteration, index, members, calls (oracle_c04_iface.go)
 //
 // A case is the template text (Go-quoted); the environment is c04EnvFor(template text): c04Env(), plus
-// the shape variables sh* iff the text mentions one.
+// the shape variables sh* iff the text mentions one, plus the interface variables im* iff the text mentions one.
 
 const c04Timeout = 3 * time.Second
 
@@ -456,7 +460,7 @@ func init() {
 		}
 		note := "A panic is attributed to plush because no helper, method or iterator of the C04 environment can panic (nil receivers/maps/funcs handled). Not generated on purpose: self-referential data (xs[0] = xs then printing xs) and recursive user functions / partials — they exhaust the Go stack, which kills the process and cannot be observed in-process; loops over huge ranges (C19's subject)."
 		// the streams are independent (own report, own random state): run them side by side
-		streams := []func(Config) *Report{c04Infix, c04Index, c04Member, c04Iter, c04Call, c04Builtin, c04Rand, c04Shapes}
+		streams := []func(Config) *Report{c04Infix, c04Index, c04Member, c04Iter, c04Call, c04Builtin, c04Rand, c04Shapes, c04Iface}
 		reps := make([]*Report, len(streams))
 		var wg sync.WaitGroup
 		for i := range streams {
